@@ -35,6 +35,10 @@ pub enum Ty {
   Number,
   Str,
   Boolean,
+  /// `typeRef="Any"`: the value passes as it is and the name is known to the logic (input data only)
+  Any,
+  /// `typeRef=" number "`: white space around a type reference is not a part of the name (input data only)
+  NumberSp,
   /// item definitions of `ITEMS`: a number with allowed values, a reference to it with allowed
   /// values of its own, a collection of numbers, a component type, a string with allowed values
   ItemNum,
@@ -61,9 +65,9 @@ const ITEMS: [(&str, &str, &str); 5] = [
 impl Ty {
   fn atom(self) -> &'static str {
     match self {
-      Ty::Untyped => "untyped",
+      Ty::Untyped | Ty::Any => "untyped",
       Ty::Other => "other",
-      Ty::Number => "number",
+      Ty::Number | Ty::NumberSp => "number",
       Ty::Str => "string",
       Ty::Boolean => "boolean",
       Ty::ItemNum => "tNum",
@@ -88,12 +92,15 @@ impl Ty {
     match self {
       Ty::Untyped => String::new(),
       Ty::Other => " typeRef=\"tNoSuchType\"".into(),
+      Ty::Any => " typeRef=\"Any\"".into(),
+      Ty::NumberSp => " typeRef=\" number \"".into(),
       t => format!(" typeRef=\"{}\"", t.atom()),
     }
   }
   fn feel_type(self) -> Option<FeelType> {
     match self {
-      Ty::Number => Some(FeelType::Number),
+      Ty::Number | Ty::NumberSp => Some(FeelType::Number),
+      Ty::Any => Some(FeelType::Any),
       Ty::Str => Some(FeelType::String),
       Ty::Boolean => Some(FeelType::Boolean),
       _ => None,
@@ -1020,7 +1027,7 @@ impl<'a> GraphGen<'a> {
 }
 
 const INPUT_NAMES: [&str; 5] = ["a", "b", "c", "Unit Price", "q"];
-const INPUT_TYPES: [Ty; 6] = [Ty::Number, Ty::Number, Ty::Number, Ty::Str, Ty::Boolean, Ty::Other];
+const INPUT_TYPES: [Ty; 8] = [Ty::Number, Ty::Number, Ty::Number, Ty::Str, Ty::Boolean, Ty::Other, Ty::Any, Ty::NumberSp];
 
 fn logic_kinds(l: &Logic, out: &mut BTreeSet<&'static str>) {
   match l {
@@ -1175,7 +1182,7 @@ pub fn gen_graph(rng: &mut Rng) -> Graph {
 fn input_kind(ty: Ty) -> VK {
   match ty {
     // the generated input values of type number are integers
-    Ty::Number | Ty::ItemNum | Ty::ItemRef => VK::Int,
+    Ty::Number | Ty::NumberSp | Ty::ItemNum | Ty::ItemRef => VK::Int,
     Ty::ItemList => VK::ListN,
     Ty::ItemComp => VK::CtxInt,
     Ty::ItemStr => VK::Str,
@@ -1799,7 +1806,7 @@ fn value_text(ty: Ty, rng: &mut Rng) -> String {
     _ => {}
   }
   let ty = match ty {
-    Ty::ItemNum | Ty::ItemRef => Ty::Number,
+    Ty::ItemNum | Ty::ItemRef | Ty::NumberSp => Ty::Number,
     Ty::ItemStr => Ty::Str,
     t => t,
   };
@@ -1990,6 +1997,219 @@ fn run_cases(xml: &str, cases: &[(String, Vec<(String, String)>)]) -> (String, V
 }
 
 // ------------------------------------------------------------------------------------------
+// written-out expectations: small models whose value the property text prescribes, written down
+// by hand (no model, no generated oracle) — the behaviours reviewers reported against the letter of
+// the property.  Each has a signature of its own.
+
+pub struct Expectation {
+  pub family: &'static str,
+  pub signature: &'static str,
+  /// the body of `<definitions>`
+  pub body: String,
+  pub invocable: &'static str,
+  /// FEEL context text
+  pub input: &'static str,
+  /// FEEL text of the expected value
+  pub expected: &'static str,
+}
+
+/// a value without the messages inside its nulls
+fn strip(v: &Value) -> Value {
+  match v {
+    Value::Null(_) => Value::Null(None),
+    Value::List(vs) => Value::List(dmntk_feel::values::Values::new(vs.as_vec().iter().map(strip).collect())),
+    Value::Context(c) => {
+      let mut out = FeelContext::default();
+      for (k, x) in c.iter() {
+        out.set_entry(k, strip(x));
+      }
+      Value::Context(out)
+    }
+    other => other.clone(),
+  }
+}
+
+pub fn run_expectations(rep: &mut Report, list: &[Expectation]) {
+  for e in list {
+    let xml = format!("{}{}</definitions>", HEAD, e.body);
+    let ctx = match eval_text(e.input) {
+      Value::Context(c) => c,
+      _ => FeelContext::default(),
+    };
+    let built = guarded(|| dmntk_model::parse(&xml).map_err(|m| m.to_string()).and_then(|d| ModelEvaluator::new(&d).map_err(|m| m.to_string())));
+    let obs = match built {
+      Ok(Ok(me)) => match guarded(|| me.evaluate_invocable(e.invocable, &ctx)) {
+        Ok(v) => format!("{}", strip(&v)),
+        Err(p) => format!("panic: {}", p),
+      },
+      Ok(Err(m)) => format!("the model does not build: {}", m),
+      Err(p) => format!("panic while building: {}", p),
+    };
+    let exp = format!("{}", strip(&eval_text(e.expected)));
+    rep.case(&format!("expect {} {} {}", xml, e.invocable, e.input), true);
+    rep.hit(&format!("expectation:{}", e.family));
+    if obs != exp {
+      rep.disagree(Kind::ImplVsSpec, e.family, e.signature, &format!("invocable {} on {} in model {}", e.invocable, e.input, xml), &obs, &exp);
+    }
+  }
+}
+
+fn x_input(name: &str, type_ref: &str) -> String {
+  format!("<inputData name=\"{0}\" id=\"_{0}\"><variable name=\"{0}\" typeRef=\"{1}\"/></inputData>", name, type_ref)
+}
+
+fn x_lit(text: &str) -> String {
+  format!("<literalExpression><text>{}</text></literalExpression>", text)
+}
+
+/// a decision `name` with the required inputs `ri`, decisions `rd`, knowledge `rk` and the logic (XML)
+fn x_dec(name: &str, ri: &[&str], rd: &[&str], rk: &[&str], logic: &str) -> String {
+  let mut s = format!("<decision name=\"{0}\" id=\"_{0}\"><variable name=\"{0}\"/>", name);
+  for q in ri {
+    s.push_str(&format!("<informationRequirement><requiredInput href=\"#_{}\"/></informationRequirement>", q));
+  }
+  for q in rd {
+    s.push_str(&format!("<informationRequirement><requiredDecision href=\"#_{}\"/></informationRequirement>", q));
+  }
+  for q in rk {
+    s.push_str(&format!("<knowledgeRequirement><requiredKnowledge href=\"#_{}\"/></knowledgeRequirement>", q));
+  }
+  s.push_str(logic);
+  s.push_str("</decision>");
+  s
+}
+
+/// a knowledge model `name(params)` with the body (XML) and the required knowledge `rk`
+fn x_bkm(name: &str, params: &[(&str, &str)], rk: &[&str], body: &str) -> String {
+  let mut s = format!("<businessKnowledgeModel name=\"{0}\" id=\"_{0}\"><variable name=\"{0}\"/><encapsulatedLogic>", name);
+  for (p, t) in params {
+    s.push_str(&format!("<formalParameter name=\"{}\" typeRef=\"{}\"/>", p, t));
+  }
+  s.push_str(body);
+  s.push_str("</encapsulatedLogic>");
+  for q in rk {
+    s.push_str(&format!("<knowledgeRequirement><requiredKnowledge href=\"#_{}\"/></knowledgeRequirement>", q));
+  }
+  s.push_str("</businessKnowledgeModel>");
+  s
+}
+
+fn x_entry(name: Option<&str>, logic: &str) -> String {
+  match name {
+    Some(n) => format!("<contextEntry><variable name=\"{}\"/>{}</contextEntry>", n, logic),
+    None => format!("<contextEntry>{}</contextEntry>", logic),
+  }
+}
+
+pub fn expectations() -> Vec<Expectation> {
+  let mut v = vec![];
+  let mut add = |family: &'static str, signature: &'static str, body: String, cases: &[(&'static str, &'static str, &'static str)]| {
+    for (invocable, input, expected) in cases {
+      v.push(Expectation { family, signature, body: body.clone(), invocable, input, expected });
+    }
+  };
+  // a knowledge model computes its encapsulated logic: parameters and its own requirements, nothing of the caller
+  add(
+    "expect-bkm-scope",
+    "the body of a knowledge model reads a variable of the invoking decision (neither a parameter nor a requirement of the knowledge model)",
+    x_input("a", "number") + &x_input("y", "number") + &x_dec("D", &["a", "y"], &[], &["F"], &x_lit("F(a)")) + &x_bkm("F", &[("x", "number")], &[], &x_lit("x + y")),
+    &[("D", "{a: 1, y: 2}", "null"), ("F", "{x: 1, y: 2}", "null"), ("D", "{a: 1}", "null")],
+  );
+  // boxed contexts compose: the entries of a nested context are its own
+  add(
+    "expect-nested-context",
+    "an entry of a nested boxed context replaces a variable of the same name of the enclosing scope",
+    x_input("a", "number")
+      + &x_dec(
+        "D",
+        &["a"],
+        &[],
+        &[],
+        &format!(
+          "<context>{}{}</context>",
+          x_entry(Some("inner"), &format!("<context>{}{}</context>", x_entry(Some("a"), &x_lit("1")), x_entry(None, &x_lit("a + 1")))),
+          x_entry(Some("outer"), &x_lit("a"))
+        ),
+      )
+      + &x_dec(
+        "E",
+        &["a"],
+        &[],
+        &[],
+        &format!(
+          "<context>{}{}{}</context>",
+          x_entry(Some("k"), &x_lit("a * 2")),
+          x_entry(Some("inner"), &format!("<context>{}{}</context>", x_entry(Some("k"), &x_lit("0")), x_entry(Some("a"), &x_lit("k - 1")))),
+          x_entry(None, &x_lit("[a, k, inner.a, inner.k]"))
+        ),
+      ),
+    &[("D", "{a: 10}", "{inner: 2, outer: 10}"), ("E", "{a: 10}", "[10, 20, -1, 0]")],
+  );
+  // boxed invocations compose like literal ones: the arguments are converted to the types of the formal parameters
+  let g = x_bkm("G", &[("n", "number")], &[], &x_lit("n"));
+  add(
+    "expect-boxed-invocation-types",
+    "a boxed invocation binds an argument that does not conform to the type of the formal parameter (the literal invocation gives null)",
+    x_dec("L", &[], &[], &["G"], &x_lit("G(\"abc\")"))
+      + &x_dec("N", &[], &[], &["G"], &x_lit("G(n: \"abc\")"))
+      + &x_dec("B", &[], &[], &["G"], &format!("<invocation>{}<binding><parameter name=\"n\"/>{}</binding></invocation>", x_lit("G"), x_lit("\"abc\"")))
+      + &g,
+    &[("L", "{}", "null"), ("N", "{}", "null"), ("B", "{}", "null")],
+  );
+  add(
+    "expect-surplus-arguments",
+    "surplus positional arguments of a knowledge model are ignored",
+    x_dec("P", &[], &[], &["G"], &x_lit("G(1, 2)")) + &x_dec("Q", &[], &[], &["G"], &x_lit("G(1)")) + &g,
+    &[("P", "{}", "null"), ("Q", "{}", "1")],
+  );
+  // every required input is bound to the supplied value: the type Any accepts every value
+  add(
+    "expect-any-input",
+    "input data of the type Any is bound to null, its name is unknown to the decision logic",
+    x_input("z", "Any")
+      + &x_dec("E", &["z"], &[], &[], &x_lit("z"))
+      + &x_dec("P", &["z"], &[], &[], &x_lit("z + 1"))
+      + &x_dec("C", &["z"], &[], &[], &format!("<context>{}{}</context>", x_entry(Some("w"), &x_lit("z")), x_entry(None, &x_lit("[w, z]")))),
+    &[("E", "{z: 7}", "7"), ("E", "{z: \"s\"}", "\"s\""), ("E", "{z: [1, {a: 2}]}", "[1, {a: 2}]"), ("E", "{}", "null"), ("P", "{z: 7}", "8"), ("C", "{z: true}", "[true, true]")],
+  );
+  // boxed function definitions compose: a function value that can be invoked
+  add(
+    "expect-function-definition",
+    "a boxed function definition with formal parameters is not usable as decision logic or as a context entry",
+    x_input("a", "number")
+      + &x_dec("F", &[], &[], &[], &format!("<functionDefinition><formalParameter name=\"x\"/>{}</functionDefinition>", x_lit("x + 1")))
+      + &x_dec("U", &["a"], &["F"], &[], &x_lit("F(a)"))
+      + &x_dec(
+        "W",
+        &["a"],
+        &[],
+        &[],
+        &format!(
+          "<context>{}{}</context>",
+          x_entry(Some("f"), &format!("<functionDefinition><formalParameter name=\"x\"/>{}</functionDefinition>", x_lit("x * 2"))),
+          x_entry(None, &x_lit("f(a)"))
+        ),
+      ),
+    &[("U", "{a: 1}", "2"), ("W", "{a: 4}", "8")],
+  );
+  // the decision logic is the whole text of the expression
+  add(
+    "expect-text-with-comment",
+    "the text of a literal expression ends at an XML comment inside it",
+    x_dec("D", &[], &[], &[], &x_lit("1 <!-- c --> + 2")) + &x_dec("E", &[], &[], &[], &x_lit("<!-- c -->1 + 2")) + &x_dec("T", &[], &[], &[], &x_lit("1 + <![CDATA[2]]> + 4")),
+    &[("D", "{}", "3"), ("E", "{}", "3"), ("T", "{}", "7")],
+  );
+  // the context binds the required knowledge models, not those behind them
+  add(
+    "expect-indirect-knowledge",
+    "a decision invokes a knowledge model it does not require (required only by a knowledge model it requires)",
+    x_dec("D", &[], &[], &["A"], &x_lit("G(5)")) + &x_dec("R", &[], &[], &["A"], &x_lit("A(5)")) + &x_bkm("A", &[("n", "number")], &["G"], &x_lit("G(n) + 1")) + &x_bkm("G", &[("n", "number")], &[], &x_lit("n * 2")),
+    &[("R", "{}", "11"), ("D", "{}", "null")],
+  );
+  v
+}
+
+// ------------------------------------------------------------------------------------------
 // running
 
 fn render_impl(r: Result<Value, String>) -> String {
@@ -2039,11 +2259,30 @@ pub fn run(cfg: &Cfg) -> Report {
     child_main();
     std::process::exit(0);
   }
+  // probe: `vharness C04 c04-probe <model.xml> <invocable> <context text>…` prints the value of the invocable
+  // on every context (the real parser, builder and evaluator of the working tree)
+  if cfg.extra.first().map_or(false, |a| a == "c04-probe") {
+    let xml = std::fs::read_to_string(&cfg.extra[1]).expect("model file");
+    match dmntk_model::parse(&xml).map_err(|e| e.to_string()).and_then(|d| ModelEvaluator::new(&d).map_err(|e| e.to_string())) {
+      Err(e) => println!("BUILD-ERROR {}", e),
+      Ok(me) => {
+        for t in &cfg.extra[3..] {
+          let ctx = match eval_text(t) {
+            Value::Context(c) => c,
+            _ => FeelContext::default(),
+          };
+          println!("{} on {} => {:?}", cfg.extra[2], t, guarded(|| me.evaluate_invocable(&cfg.extra[2], &ctx)));
+        }
+      }
+    }
+    std::process::exit(0);
+  }
   let mut rep = Report::new(
     "C04",
     "acyclic requirement graphs of 2..8 nodes (decisions, knowledge models, decision services) over 1..3 typed inputs — diamonds, a decision required directly and through a service, knowledge models requiring knowledge models and services, literal / boxed context / boxed invocation / boxed function definition / relation logic, variables named like inputs or other decisions, typed and untyped variables — rendered as DMN XML and loaded by the real parser and builder; every invocable evaluated on generated input contexts (plain, plus entries outside the requirement closure, plus an entry for every variable of a decision / knowledge model / service outside the closure). Non-trivial: the invocable has at least one requirement edge in its closure (closureNames non-empty) or the graph has ≥ 3 nodes; distinct by (graph, invocable, input). Cases whose values the exact-arithmetic model cannot compute are counted as skipped_unsupported.",
   );
   let thorough = cfg.tier == "thorough";
+  run_expectations(&mut rep, &expectations());
   run_graphs(cfg, &mut rep, if thorough { 12_000 } else { 1_500 }, true, "");
   rep
 }
